@@ -92,6 +92,9 @@ pub trait Ext: Fixed {
     fn x_checked_next_power_of_two(self) -> Option<Self>;
     // inherent (not on the trait)
     fn x_checked_rem_int(self, i: Self::Bits) -> Option<Self>;
+    /// deprecated inherent forms (still public API)
+    fn x_wrapping_rem_int(self, i: Self::Bits) -> Self;
+    fn x_overflowing_rem_int(self, i: Self::Bits) -> (Self, bool);
     // comparisons with the primitive on the left (impls exist per concrete family only)
     fn x_rev_cmp_int(&self, isigned: bool, m: u32, ib: u128) -> [u8; 7];
     fn x_rev_cmp_f32(&self, f: f32) -> [u8; 7];
@@ -156,6 +159,10 @@ macro_rules! ext_common {
         fn x_div_int_refs(a: &Self, i: &$Inner) -> [Self; 3] { [a / i, a / *i, *a / i] }
         fn x_rem_int_refs(a: &Self, i: &$Inner) -> [Self; 3] { [a % i, a % *i, *a % i] }
         fn x_checked_rem_int(self, i: $Inner) -> Option<Self> { self.checked_rem_int(i) }
+        #[allow(deprecated)]
+        fn x_wrapping_rem_int(self, i: $Inner) -> Self { self.wrapping_rem_int(i) }
+        #[allow(deprecated)]
+        fn x_overflowing_rem_int(self, i: $Inner) -> (Self, bool) { self.overflowing_rem_int(i) }
         fn x_rev_cmp_int(&self, isigned: bool, m: u32, ib: u128) -> [u8; 7] {
             match (isigned, m) {
                 (true, 8) => ord7(&(ib as i8), self),
